@@ -119,14 +119,20 @@ def determinism(n: int) -> int:
 
 # ---------------------------------------------------------------------------
 def mutants(only, tier: str, keep_going=True) -> int:
-    seeded = os.path.join(core.VERIF, "seeded")
-    ids = sorted(d for d in os.listdir(seeded)
-                 if os.path.exists(os.path.join(seeded, d, "patch.diff")))
+    where = {}
+    for sub in ("seeded", "mutants"):
+        root = os.path.join(core.VERIF, sub)
+        if os.path.isdir(root):
+            for d in os.listdir(root):
+                if os.path.exists(os.path.join(root, d, "patch.diff")):
+                    where[d] = root
+    ids = sorted(where)
     if only:
         ids = [i for i in ids if i in only]
     rows = []
     bad = 0
     for mid in ids:
+        seeded = where[mid]
         meta = json.load(open(os.path.join(seeded, mid, "meta.json")))
         tmp = tempfile.mkdtemp(prefix="verif-mutant-", dir="/tmp")
         scratch = os.path.join(tmp, "repo")
